@@ -1773,6 +1773,74 @@ impl Model {
         self.prepare_for_search()
     }
 
+    /// Does the model accept a candidate optimum produced outside the search?
+    ///
+    /// Two checks, both by ordinary propagation on copies of the domains:
+    /// * feasibility: every variable is fixed to its candidate value and all propagators are run
+    ///   to their fixed point, exactly as the search does on a fully assigned space; no propagator
+    ///   may fail. A value outside its variable's domain, a value of the wrong kind or a candidate
+    ///   that does not cover every variable is rejected;
+    /// * optimality: propagating the model itself (nothing fixed) gives a proven bound on the
+    ///   objective; the candidate must attain it (within one step for a float objective).
+    /// A candidate that fails either check is not an answer: the caller falls back to the search.
+    fn accepts_candidate(&self, candidate: &Solution, objective: &impl View, minimize: bool) -> bool {
+        use crate::search::{agenda::Agenda, propagate, trail::Trail, Space};
+        use crate::variables::views::ViewRaw;
+        use crate::variables::{Val, Var, VarId};
+
+        if candidate.value_count() != self.vars.count() {
+            return false;
+        }
+        let run = |vars: Vars| {
+            let props = self.props.clone();
+            let agenda = Agenda::with_props(props.get_prop_ids_iter());
+            let space = Space {
+                vars,
+                props,
+                trail: Trail::new(),
+                lp_solver_used: false,
+                lp_constraint_count: 0,
+                lp_variable_count: 0,
+                lp_stats: None,
+            };
+            propagate(space, agenda).map(|(_, space)| space.vars)
+        };
+
+        // feasibility of the candidate
+        let mut fixed = self.vars.clone();
+        for index in 0..fixed.count() {
+            let var_id = VarId::from_index(index);
+            match (&mut fixed[var_id], candidate[var_id]) {
+                (Var::VarI(domain), Val::ValI(value)) => {
+                    domain.remove_all_but(value);
+                    if domain.is_empty() {
+                        return false;
+                    }
+                }
+                (Var::VarF(interval), Val::ValF(value)) => {
+                    interval.fix_to(value);
+                    if interval.is_empty() {
+                        return false;
+                    }
+                }
+                _ => return false,
+            }
+        }
+        let Some(fixed) = run(fixed) else { return false };
+
+        // optimality: the bound that propagation alone proves for the objective
+        let Some(root) = run(self.vars.clone()) else { return false };
+        let slack = match objective.get_underlying_var_raw().map(|v| &self.vars[v]) {
+            Some(Var::VarF(interval)) => Val::ValF(interval.step),
+            _ => Val::ValI(0),
+        };
+        if minimize {
+            objective.min_raw(&fixed) <= objective.min_raw(&root) + slack
+        } else {
+            objective.max_raw(&fixed) + slack >= objective.max_raw(&root)
+        }
+    }
+
     /// Try to solve minimization using specialized optimization algorithms
     /// Returns Some(solution) if optimization succeeds, None if should fall back to search
     fn try_optimization_minimize(&self, objective: &impl View) -> Option<Solution> {
@@ -1786,7 +1854,10 @@ impl Model {
         }
         // Attempt optimization using the router
         match self.optimization_router.try_minimize(&self.vars, &self.props, objective) {
-            OptimizationAttempt::Success(solution) => Some(solution),
+            // The fast path looks at the objective variable and at the constraints it understands
+            // only: its candidate is an answer only if the whole model accepts it
+            OptimizationAttempt::Success(solution) if self.accepts_candidate(&solution, objective, true) => Some(solution),
+            OptimizationAttempt::Success(_) => None,
             OptimizationAttempt::Fallback(_reason) => {
                 // Optimization not applicable - let search handle it
                 None
@@ -1811,7 +1882,10 @@ impl Model {
         }
         // Attempt optimization using the router
         match self.optimization_router.try_maximize(&self.vars, &self.props, objective) {
-            OptimizationAttempt::Success(solution) => Some(solution),
+            // The fast path looks at the objective variable and at the constraints it understands
+            // only: its candidate is an answer only if the whole model accepts it
+            OptimizationAttempt::Success(solution) if self.accepts_candidate(&solution, objective, false) => Some(solution),
+            OptimizationAttempt::Success(_) => None,
             OptimizationAttempt::Fallback(_reason) => {
                 // Optimization not applicable - let search handle it
                 None
